@@ -113,7 +113,8 @@ contract("system.System.generate", props=["C13", "C14", "C15"],
          clause_props={_GEN[_PINNED]: ["C14"], "refuses-a-system-that-is-not-generable": ["C13", "C15"], "cover": ["C13", "C14", "C15"]},
          modifies=["ghost.acc", "ghost.last_pick_idx", "ghost.sel_p", "ghost.sel_n", "ghost.sel_rng", "ghost.sel_norm", "ghost.last_gen_mol", "ghost.last_gen_result", "ghost.choices", "ghost.last_p", "ghost.last_n", "ghost.last_pick",
                    "ghost.last_rng", "ghost.last_cand", "ghost.last_norm", "ghost.draws", "ghost.last_draw", "ghost.last_draw_rng", "ghost.units",
-                   "ghost.mass_after", "ghost.open_after", "ghost.bonds", "ghost.bond_a", "ghost.bond_b", "ghost.bond_t"])
+                   "ghost.mass_after", "ghost.open_after", "ghost.bonds", "ghost.bond_a", "ghost.bond_b", "ghost.bond_t", "ghost.at_site_choices", "ghost.d2_token",
+                   "ghost.last_draw_family", "ghost.last_draw_p1", "ghost.last_draw_p2"])
 
 # C14: the required law (mass shares converge to the declared fractions  <=>  p_i * M_i * f_j == p_j * M_j * f_i) does NOT follow from
 # the pinned selection law p_i = f_i / sum(f): z3 must find a counterexample (two components, different molecule masses).
